@@ -184,6 +184,12 @@ func (fv *FV) storeTarget(li *LoopInfo, addr ssa.Value) {
 	case *ssa.IndexAddr:
 		if al, ok := a.X.(*ssa.Alloc); ok {
 			li.Cells[al] = true
+		} else if ld, ok := a.X.(*ssa.UnOp); ok {
+			if al, ok := ld.X.(*ssa.Alloc); ok && !fv.isHeapObject(al) {
+				li.Cells[al] = true // element store into a slice held in a local variable
+			} else {
+				li.All = true
+			}
 		} else {
 			li.All = true
 		}
@@ -607,6 +613,36 @@ func (fv *FV) Verify() {
 	if len(errs) > 0 {
 		fv.outsidef("contract error: %s", strings.Join(errs, "; "))
 		return
+	}
+	// ghost variables start unbound (an arbitrary value); they are bound when their anchor call returns
+	if fv.spec != nil {
+		for _, g := range fv.spec.GhostAt {
+			var proto Term
+			if id, ok := g.Clause.E.(*EIdent); ok && (id.Name == "callresult" || id.Name == "callresult1") {
+				ri := 0
+				if id.Name == "callresult1" {
+					ri = 1
+				}
+				for k, f := range fv.eng.funcs {
+					if lastPart(k) == g.Callee && funcPkgName(f) == funcPkgName(fv.fn) && f.Signature.Results().Len() > ri {
+						t := f.Signature.Results().At(ri).Type()
+						proto = Term{Sort: fv.sortOf(t), T: t}
+						break
+					}
+				}
+			} else {
+				var gerrs []string
+				proto = fv.entryEnv(st, &gerrs).Eval(g.Clause.E)
+			}
+			if proto.Sort == "" {
+				fv.outsidef("ghost %s: cannot determine its sort", g.Name)
+				continue
+			}
+			if st.ghosts == nil {
+				st.ghosts = map[string]Term{}
+			}
+			st.ghosts[g.Name] = fv.freshConst(st, "ghost_unbound_"+g.Name, proto.Sort, proto.T)
+		}
 	}
 	fv.entryScript = st.script
 	fv.run(st)
